@@ -84,7 +84,7 @@ VT = "deterministic simulation: the real message validator with real node storag
 CLAIMED.update({
  "C08": dict(engine="valsim", cat="exploration", ref="DESIGN.md §3 C08, §11.7",
    technique=VT + "every call guarded: recovered panic, real-time and allocation bound",
-   text="Seeded programs interleave slot/time advance, duties, honest gossip (which builds per-signer history), round timeouts and injections: raw bytes at four nesting depths, byte-level mutations of honest messages with re-signed envelopes, structurally valid messages with boundary field values (round 0 / 2^63 / 2^64-1, height 0 / max, 0 / 14 / unsorted / duplicate signers, unknown types and roles, truncated and oversize justifications, data up to 9 MiB) on right and wrong topics for known, unknown, liquidated, exited and metadata-less validators, through ValidatePubsubMessage and ValidateSSVMessage; a share of each run feeds mutated inputs to the 9 standalone decoders (seeded input mutation only - they have no schedule). One defect repaired (fix: dc64b1189).",
+   text="Seeded programs interleave slot/time advance, duties, honest gossip (which builds per-signer history), round timeouts and injections: raw bytes at four nesting depths, byte-level mutations of honest messages with re-signed envelopes, structurally valid messages with boundary field values (round 0 / 2^63 / 2^64-1, height 0 / max, 0 / 14 / unsorted / duplicate signers, unknown types and roles, truncated and oversize justifications, data up to 9 MiB) and, after every accepted honest message, the messages derived from it (replay, other root, earlier slot or round, second proposal with other / longer / shorter data) on right and wrong topics for known, unknown, liquidated, exited and metadata-less validators, through ValidatePubsubMessage and ValidateSSVMessage; a share of each run feeds mutated inputs to the 9 standalone decoders (seeded input mutation only - they have no schedule). One defect repaired (fix: dc64b1189).",
    note="A call that never returns cannot become a violation record: an out-of-bubble watchdog prints the input and the worker times out (exit 2). Go-heap allocations only. Concurrent validation is not simulated. Simulator written by a builder sub-agent, reviewed and re-run by me."),
  "C09": dict(engine="valsim", cat="exploration", ref="DESIGN.md §3 C09, §11.7",
    technique=VT + "reference rule predicate on every accepted message and single-rule mutants of every honest message",
